@@ -20,6 +20,8 @@ def run(ctx):
     import translate_nxutil
     translate_nxutil.check(ctx)      # networkx_util.py (Kahn, all_ancestors, predecessor_count, is_source_node) compiled from the source and linked to Base/Topo.v
     prune_corr.run_prune(ctx)       # real prune_plan / prune_source_literals vs Cache/Prune.v (exact node order + keyed edges)
+    import translate_scheduler
+    translate_scheduler.check(ctx)    # scheduler.py (the three queue disciplines, create_queue's dispatch) compiled from the source and linked to Engine/Queues.v
     queues_corr.run_queues(ctx)     # real RandomQueue / PriorityQueue / deque op sequences vs Engine/Queues.v
     gather_temporaries(ctx)
 
